@@ -13,10 +13,13 @@ LEVEL_TEXT = ("Theorems in Coq (Props/C18.v) for every byte string: the models o
               "the byte-level gates of sm2.Decrypt (both orderings), CipherMarshal/CipherUnmarshal, Decompress, the post-ASN.1 logic of "
               "ParsePKCS8EcryptedPrivateKey and ParseSm2PrivateKey, ReadPublicKeyFromHex/ReadPrivateKeyFromHex, sessionState.unmarshal, "
               "decryptTicket (MAC/CTR abstract), certificateRequestMsgGM.unmarshal and the three GM key-exchange parsers never index or "
-              "slice out of range and always terminate. The extracted models are run on the same mutated inputs as /repo and every "
+              "slice out of range and always terminate; so does a model of the DER reader of encoding/asn1 (parseTagAndLength, parseField ... "
+              "for structs of big.Int, []byte, BitString, OID, RawValue with optional/explicit/tag parameters) for every schema, with at most "
+              "2*|schema| tag-and-length reads, instantiated end to end for SignDataToSignDigit and CipherUnmarshal. The extracted models are run on the same mutated inputs as /repo and every "
               "projected result (value or error class) compared.")
 LEVEL_NOTE = ("PROVED for all byte strings: only the hand-written byte-level decoders listed above, as modelled (models written by hand, "
-              "tied by the differential run). NOT PROVED, checked by the corpus only (about 100k mutated inputs per quick run under "
+              "tied by the differential run). The encoding/asn1 reader model is compared with the real package value for value (decoded fields and rest bytes) on about 10k mutants of "
+              "signatures, SM2 ciphertexts, the outer certificate split and two structures with optional / explicit / implicit fields. NOT PROVED, checked by the corpus only (about 100k mutated inputs per quick run under "
               "recover(), 2 s / 64 MiB limits): everything that is a thin wrapper over encoding/asn1, encoding/pem, math/big, "
               "crypto/* - ParseCertificate(s), ParseCertificateRequest, ParseCRL/ParseDERCRL, ParsePKCS7 (+Verify/Decrypt/DecryptSM2), "
               "PKCS#8/PEM readers, ParseSm2PublicKey, pkcs12.Decode/DecodeAll/ToPEM, DecryptAsn1, SignDataToSignDigit, PublicKey.Verify, "
@@ -26,7 +29,7 @@ LEVEL_NOTE = ("PROVED for all byte strings: only the hand-written byte-level dec
               "above 10^6 are classified 'excluded' when slow). Type assertions on caller-supplied key / certificate "
               "objects in the PKCS#7 API (repaired in 69f785e) are not byte strings: they are exercised by class K of the C17 check.")
 TRUSTED_BASE = [
-    "models coq/Dec/BerModel.v, coq/Dec/ByteModels.v written by hand from x509/ber.go, x509/pkcs7.go, x509/pkcs8.go, x509/utils.go, sm2/sm2.go, sm2/utils.go, gmtls/ticket.go, gmtls/gm_handshake_messages.go, gmtls/gm_key_agreement.go; tied by the correspondence run of this check",
+    "models coq/Dec/BerModel.v, coq/Dec/ByteModels.v, coq/Dec/Asn1Model.v (encoding/asn1 of Go 1.23, from its source) written by hand from x509/ber.go, x509/pkcs7.go, x509/pkcs8.go, x509/utils.go, sm2/sm2.go, sm2/utils.go, gmtls/ticket.go, gmtls/gm_handshake_messages.go, gmtls/gm_key_agreement.go; tied by the correspondence run of this check",
     "checked-access layer coq/Dec/Access.v: slices modelled with cap = len",
     "translator target 'dec' (maxBERDepth, sm2 P and N, ticketKeyNameLen) -> coq/Gen/DecConsts.v",
     "extraction: ExtrOcamlBasic only; OCaml 4.13.1 + dune; runner ocaml/dec/main.ml and ocaml/conv.ml.tmpl",
@@ -48,7 +51,8 @@ RULE = ("corpus = valid encodings made by the library itself (SM2 and RSA certif
         "1000/10000 (definite and indefinite), 20000 siblings, the repaired overlap family through the implementation. A case is "
         "non-trivial when its input is non-empty; distinct = distinct case text")
 
-MODELLED = {"BER", "UNP", "PAD", "SDG", "CUM", "CMA", "DCP", "P8E", "SKP", "HPU", "HPR", "SSU", "CRQ", "KXC", "KXS", "KXE"}
+MODELLED = {"BER", "UNP", "PAD", "SDG", "CUM", "CMA", "DCP", "P8E", "SKP", "HPU", "HPR", "SSU", "CRQ", "KXC", "KXS", "KXE",
+            "A1S", "A1C", "A1X", "A1T1", "A1T2"}
 GATED = {"SDG", "DCP", "P8E", "KXC", "KXS", "KXE"}   # the model decides only the gate: err | pass
 
 
